@@ -37,6 +37,27 @@ def _self_attr_stores(trees) -> dict:
     return out
 
 
+def _self_attr_uses(trees) -> dict:
+    """class name -> {private attribute: (sorted tuple of methods that touch it, number of uses)}"""
+    out: dict[str, dict[str, tuple]] = {}
+    for tree in trees:
+        for c in ast.walk(tree):
+            if not isinstance(c, ast.ClassDef):
+                continue
+            acc: dict[str, list] = {}
+            for f in c.body:
+                if not isinstance(f, (ast.FunctionDef, ast.AsyncFunctionDef)) or not f.args.args:
+                    continue
+                me = f.args.args[0].arg
+                for x in ast.walk(f):
+                    if isinstance(x, ast.Attribute) and isinstance(x.value, ast.Name) and x.value.id == me and x.attr.startswith("_") and not x.attr.endswith("__"):
+                        acc.setdefault(x.attr, []).append(f.name)
+            d = out.setdefault(c.name, {})
+            for a, ms in acc.items():
+                d[a] = (tuple(sorted(set(ms))), len(ms))
+    return out
+
+
 def _identifiers(trees) -> set:
     ids = set()
     for tree in trees:
@@ -77,13 +98,14 @@ def _normalise_private_attributes(prog, trees) -> dict:
             from . import variants
 
             btrees = [ast.parse(s) for p, s in sorted(variants.base_sources().items()) if p.endswith(".py")]
-            _BASE_ATTRS.append((_self_attr_stores(btrees), _identifiers(btrees)))
+            _BASE_ATTRS.append((_self_attr_stores(btrees), _identifiers(btrees), _self_attr_uses(btrees)))
         except Exception:
             _BASE_ATTRS.append(None)
     if _BASE_ATTRS[0] is None:
         return {}
-    base_stores, base_ids = _BASE_ATTRS[0]
+    base_stores, base_ids, base_uses = _BASE_ATTRS[0]
     cur_stores = _self_attr_stores(trees)
+    cur_uses = None
     cur_ids = None
     mapping: dict[str, str] = {}
     for cname, battrs in base_stores.items():
@@ -102,11 +124,33 @@ def _normalise_private_attributes(prog, trees) -> dict:
         if len(missing) == 1 and len(fresh) == 1:
             pairs = [(fresh[0], missing[0])]
         else:
+            # several renames in one class: similarity = same first assigned value (2), touched
+            # by the same methods (1), same number of uses (1); a pair is accepted when each
+            # side is the other's unique best match
+            if cur_uses is None:
+                cur_uses = _self_attr_uses(trees)
+            bu, cu = base_uses.get(cname, {}), cur_uses.get(cname, {})
+
+            def sim(new, old):
+                s = 0
+                if cattrs[new].replace(repr(new), repr(old)) == battrs[old]:
+                    s += 2
+                mb, mc = bu.get(old, ((), 0)), cu.get(new, ((), 0))
+                if mb[0] == mc[0] and mb[0]:
+                    s += 1
+                if mb[1] == mc[1] and mb[1]:
+                    s += 1
+                return s
+
+            table = {(new, old): sim(new, old) for new in fresh for old in missing}
             for old in missing:
-                # same first value once the candidate's own name is put back
-                cands = [new for new in fresh if cattrs[new].replace(repr(new), repr(old)) == battrs[old]]
-                if len(cands) == 1:
-                    pairs.append((cands[0], old))
+                best = max((table[(n, old)] for n in fresh), default=0)
+                top = [n for n in fresh if table[(n, old)] == best]
+                if best >= 1 and len(top) == 1:
+                    new = top[0]
+                    back = max(table[(new, o)] for o in missing)
+                    if [o for o in missing if table[(new, o)] == back] == [old]:
+                        pairs.append((new, old))
         for new, old in pairs:
             if new.startswith("__") != old.startswith("__"):
                 continue  # name mangling would change which class owns the attribute
